@@ -13,6 +13,7 @@ pub mod c11;
 pub mod c12;
 pub mod c13;
 pub mod c14;
+pub mod c16;
 pub mod c18;
 
 pub fn property(id: &str) -> Option<Property> {
@@ -30,6 +31,7 @@ pub fn property(id: &str) -> Option<Property> {
         "C12" => Some(c12::property()),
         "C13" => Some(c13::property()),
         "C14" => Some(c14::property()),
+        "C16" => Some(c16::property()),
         "C18" => Some(c18::property()),
         _ => None,
     }
